@@ -435,12 +435,17 @@ Proof.
   assert (Hx : forall x, nosend x = true -> (forall k, cs k x = 0) -> exists n, stamps_ok t p (fst stamp) ep (e1 ++ x) n).
   { intros x H1 H2. exists (0 + 0)%nat. apply stamps_ok_app; [exact He1 | apply nosend_none; assumption]. }
   destruct (p_hwm st1 <? m_retries m)%nat eqn:C1.
-  - destruct (c_retry_max c <? m_retries m)%nat; [cbn [snd]; apply Hx; [reflexivity | intros; reflexivity]|].
-    destruct (negb (p_has_bp st1)); [cbn [snd]; apply Hx; [reflexivity | intros; reflexivity]|].
-    apply pp_forward_stamps; [exact Hm | exact He|].
-    replace 0%nat with (0 + 0)%nat by reflexivity. apply stamps_ok_app; [exact He1|].
-    apply stamps_ok_none; [|intros; reflexivity]. unfold newL. cbn [sent_cur flat_map app filter].
-    rewrite snew_marker; [reflexivity | discriminate].
+  - assert (HG : match pp_guard c t p st1 ls with inl (stg, eg, ls1) => stamps_ok t p (fst stamp) ep eg 0 | inr _ => True end).
+    { unfold pp_guard. destruct (p_has_bp st1); [apply stamps_ok_none; [reflexivity | intros; reflexivity]|].
+      destruct (next_lres ls) as [[b|e] r]; [apply leader_stamps | exact I]. }
+    destruct (pp_guard c t p st1 ls) as [[[stg eg] ls1]|e]; [|cbn [snd]; apply Hx; [reflexivity | intros; reflexivity]].
+    destruct (c_retry_max c <? m_retries m)%nat.
+    + cbn [snd]. exists (0 + (0 + 0))%nat. apply stamps_ok_app; [exact He1|]. apply stamps_ok_app; [rewrite Z.add_0_r; exact HG|].
+      apply nosend_none; [reflexivity | intros; reflexivity].
+    + apply pp_forward_stamps; [exact Hm | exact He|].
+      replace 0%nat with (0 + (0 + 0))%nat by reflexivity. apply stamps_ok_app; [exact He1|]. apply stamps_ok_app; [rewrite Z.add_0_r; exact HG|].
+      apply stamps_ok_none; [|intros; reflexivity]. unfold newL. cbn [sent_cur flat_map app filter].
+      rewrite snew_marker; [reflexivity | discriminate].
   - destruct (0 <? p_hwm st1)%nat eqn:C2; [|apply pp_forward_stamps; assumption].
     destruct (m_retries m <? p_hwm st1)%nat eqn:C3.
     + destruct (length (p_levels st1) <=? m_retries m)%nat; [cbn [snd]; apply Hx; [reflexivity | intros; reflexivity]|].
@@ -540,9 +545,12 @@ Proof.
   assert (He1 : ppsh e1 = true) by (subst e1; destruct (p_has_bp st && ab); reflexivity).
   set (st1 := if p_has_bp st && ab then _ else st).
   destruct (p_hwm st1 <? m_retries m)%nat.
-  - destruct (c_retry_max c <? m_retries m)%nat; [cbn [snd]; rewrite ppsh_app, He1; reflexivity|].
-    destruct (negb (p_has_bp st1)); [cbn [snd]; rewrite ppsh_app, He1; reflexivity|].
-    apply ppsh_pp_forward. rewrite ppsh_app, He1. reflexivity.
+  - assert (HG : match pp_guard c t p st1 ls with inl (stg, eg, ls1) => ppsh eg = true | inr _ => True end)
+      by (unfold pp_guard; destruct (p_has_bp st1); [reflexivity|]; destruct (next_lres ls) as [[b|e] r]; [reflexivity | exact I]).
+    destruct (pp_guard c t p st1 ls) as [[[stg eg] ls1]|e].
+    + destruct (c_retry_max c <? m_retries m)%nat; [cbn [snd]; rewrite !ppsh_app, He1, HG; reflexivity|].
+      apply ppsh_pp_forward. rewrite !ppsh_app, He1, HG. reflexivity.
+    + cbn [snd]. rewrite ppsh_app, He1. reflexivity.
   - destruct (0 <? p_hwm st1)%nat; [|apply ppsh_pp_forward, He1].
     destruct (m_retries m <? p_hwm st1)%nat.
     + destruct (length (p_levels st1) <=? m_retries m)%nat; [cbn [snd]; rewrite ppsh_app, He1; reflexivity|].
